@@ -22,6 +22,14 @@ def kh(name, about, bound, stubs=(), quick=300, thorough=None, only=None):
     return d
 
 
+NODE_ASSUMPTIONS = [
+    "engine D on transplanted ant-node/src/put_validation.rs + error.rs, ant-evm/src/data_payments.rs, ant-protocol/src/storage/scratchpad.rs; real: rmp (de)serialisation of records, Chunk, Transaction, SignedRegister, blsttc signatures, ant-networking NetworkError, NetworkAddress",
+    "wall clock and quote timestamps are symbolic 64-bit seconds (sub-second part dropped); their 8 signed bytes are an injective placeholder of the term",
+    "quote signatures: ideal scheme behind libp2p-identity's API (key i <-> peer i; verify(pk, m, s) iff s = SIG(pk, m))",
+    "scratchpad counter is a symbolic 64-bit value (5 checked type substitutions in scratchpad.rs: field, constructor, count/increment/update_and_sign return types)",
+    "Node/Network handles are a model: store = map key -> record; payment contract answers as the harness chooses; close peers = {self, peer1, peer2}",
+]
+
 STORE_ASSUMPTIONS = COMMON_D_ASSUMPTIONS + [
     "file system is the in-memory shim (write/read/remove on a path->bytes map); a torn write leaves a strict prefix of the new content",
     "record encryption uses the real aes-gcm-siv/hkdf crates iff ant-node's default features forward encrypt-records to ant-networking (read from ant-node/Cargo.toml on every run)",
@@ -59,6 +67,41 @@ PROPS = {
         "bounds": {"quick": "2 keys x 2 operations from {put v0/v1, remove}, every subset/order of background tasks, every prefix length of one torn record file",
                    "thorough": "2 keys x 3 operations"},
         "outside": ["real fsync / page cache behaviour", "more keys and operations", "several torn files at once"],
+    },
+    "C03": {
+        "parts": [
+            {"engine": "D", "crate": "d_node", "harnesses": [
+                {"name": "c03_paid_put", "covers": ["stored", "rejected"], "quick": {"max_paths": 100000, "timeout": 900}},
+                {"name": "c03_unpaid_put", "covers": ["immutable_unpaid", "not_held", "update_of_held"], "quick": {"max_paths": 1000, "timeout": 600}},
+            ]},
+        ],
+        "assumptions": NODE_ASSUMPTIONS,
+        "bounds": {"quick": "one upload of each of the 4 paid kinds with 1..2 quotes; every combination of {signatures authentic, self among payees, payees close, contract answer, own quote's address}; quote timestamps are free symbolic instants (fresh / older than 3600 s / in the future decided by the solver); key absent before; unpaid uploads of all 4 kinds with the key held or not"},
+        "outside": ["the real EVM contract (any answer is possible in the model)", "ed25519/RSA signature schemes themselves (ideal scheme)", "more than 2 quotes", "msgpack decoding of adversarial bytes (C12)"],
+    },
+    "C04": {
+        "parts": [
+            {"engine": "D", "crate": "d_node", "harnesses": [
+                {"name": "c04_key_binding", "covers": ["foreign_key", "derived_key"], "quick": {"max_paths": 1000, "timeout": 600}},
+            ]},
+        ],
+        "assumptions": NODE_ASSUMPTIONS,
+        "bounds": {"quick": "4 record kinds x 3 acceptance paths (paid client put, unpaid update, replication) x {derived key, foreign key}; the foreign key is also held where the path requires a held record"},
+        "outside": ["RecordStore::put (libp2p inbound path: unverified records are only forwarded as events)", "rmp decoding of adversarial bytes", "SHA-3 as the chunk name function (real code runs on concrete bytes)"],
+    },
+    "C07": {
+        "parts": [
+            {"engine": "D", "crate": "d_node", "harnesses": [
+                {"name": "c07_scratchpad_seq", "covers": ["replaced", "kept"], "quick": {"max_paths": 10000, "timeout": 600}},
+                {"name": "c07_union", "covers": ["transactions", "registers"], "quick": {"max_paths": 1000, "timeout": 600}},
+                {"name": "c07_scratchpad_conc", "covers": ["settled"], "quick": {"max_paths": 100000, "timeout": 600}},
+            ]},
+        ],
+        "assumptions": NODE_ASSUMPTIONS + [
+            "concurrency model: every Network query is a request/response through the swarm driver's channel, so the harness future yields before and after the read; put_local_record is fire-and-forget, its effect is deferred and applied in channel order; the scheduler variable picks the next step",
+        ],
+        "bounds": {"quick": "one stored scratchpad with symbolic 64-bit counter and one delivery with symbolic counter / owner / signature status on the update and replication paths; transaction sets and register replicas in 2 orders with duplication; two concurrent replicated scratchpad deliveries under every interleaving"},
+        "outside": ["more than two concurrent deliveries", "the real record store behind the Network handle (C01)", "BLS itself (real blsttc runs natively)"],
     },
     "C08": {
         "parts": [
